@@ -74,7 +74,7 @@ META["rule"] += (
     " " + "Added after the seventh round: the node weights are handed over as the caller's own array (refilled afterwards in 40 %), as float32 when exact.")
 
 META["rule"] += (
-    " " + 'Added after the eighth round: one sparse component of 258 / 259 nodes for the random-walk betweenness (moderate weights) before and after a split.')
+    " " + 'Added after the eighth round: one sparse component of 258 / 259 nodes for the random-walk betweenness (moderate weights) before and after a split; split proportions 1e-12, 1e-9 and 1 - 2^-40 in a tenth of the random cases (the Arenas and spreading measures are judged whenever the weights of the network itself span no more than 1e4).')
 
 # typical weights: chosen so that the corrected degree k/tw - 1 (a factor of
 # the corrected clustering denominators) cannot vanish exactly for integer
@@ -351,8 +351,14 @@ def one_split(ctx, Network, A, w, W, directed, v, p, cid, measures,
                 continue
             if m.endswith("arenas_betweenness") and n > 9:
                 continue
+            # (measured: a twin of very small weight alone costs the
+            #  Arenas and spreading measures nothing - 1e-10 at an original
+            #  range of 1e4 whatever the proportion - so for them the range
+            #  of the network's own weights counts; the Newman measure
+            #  inverts a matrix in which the twin's weight appears)
+            wr = w2 if "newman" in m else np.asarray(w, dtype=float)
             if ("newman" in m or "arenas" in m or "spreading" in m) and \
-                    w2.max() / w2.min() > 1e4:
+                    wr.max() / wr.min() > 1e4:
                 # these measures invert a weighted Laplacian-type matrix
                 # whose condition number grows with (w_max/w_min)^2: beyond
                 # a dynamic range of 1e4 rounding alone exceeds any fixed
@@ -593,6 +599,11 @@ def run(ctx):
                 if d and r.random() < 0.5:
                     v = len(A) - 1         # split a twin again
                 p = props(r, 4)[int(r.integers(0, 4))]
+                if k % 10 == 7 and d == 0:
+                    # "every split proportion in (0,1)": twins that carry
+                    # next to nothing / next to everything of v's weight
+                    p = float(r.choice([1e-12, 1e-9, 1.0 - 2.0 ** -40]))
+                    ctx.count("extreme_split_proportions")
                 A, w, W = one_split(ctx, Network, A, w, W, directed, v, p,
                                     cid, meas, crosscheck=True, depth=d)
             if not directed and k % 2:
